@@ -323,13 +323,17 @@ static std::string foreign_json(const char * what, const char * tname)
   return std::string("{\"r\":\"foreign\",\"type\":") + jstr(tname) + ",\"msg\":" + jstr(what) + "}";
 }
 
+/* the host's duty after a run: fetch the returned value and reset the stop condition that a
+ * `return` statement leaves set (documented: bloc_reset_stop) */
 static std::string ret_json(Context& ctx)
 {
+  std::string o;
+  if (ctx.returnCondition()) { o += ",\"rc\":1"; ctx.returnCondition(false); }
   Value * r = ctx.dropReturned();
-  if (!r) return "";
+  if (!r) return o;
   std::string d; dump_value(d, *r);
   delete r;
-  return ",\"ret\":" + jstr(d);
+  return o + ",\"ret\":" + jstr(d);
 }
 
 static Parser::StreamReader * make_reader(const std::string& spec, const std::string& text)
@@ -363,7 +367,7 @@ static std::string do_run_cpp(Context& ctx, const std::string& text, const std::
   if (!x) { if (out.empty()) out = "{\"r\":\"perr\",\"no\":-1,\"msg\":\"null executable\"}"; return out; }
   if (keep) { g_exe[eslot] = x; g_exe_ctx[eslot] = &ctx; return "{\"r\":\"ok\"}"; }
   try { x->run(); out = "{\"r\":\"ok\"" + ret_json(ctx) + "}"; }
-  catch (RuntimeError& re) { out = rerr_json(re); }
+  catch (RuntimeError& re) { out = rerr_json(re); if (ctx.returnCondition()) out.insert(out.size() - 1, ",\"rc\":1"); }
   catch (ParseError& pe) { out = "{\"r\":\"foreign\",\"type\":\"ParseError-at-run\",\"msg\":" + jstr(pe.what()) + "}"; }
   catch (std::exception& e) { out = foreign_json(e.what(), typeid(e).name()); }
   catch (...) { out = foreign_json("", "unknown"); }
@@ -407,6 +411,7 @@ static std::string do_run_capi(Context& ctx, const std::string& text, bool withp
     if (bloc_execute(x))
     {
       out = "{\"r\":\"ok\"";
+      if (ctx.returnCondition()) { out += ",\"rc\":1"; bloc_reset_stop(c); }
       bloc_value * r = bloc_drop_returned(c);
       if (r) { std::string d; dump_value(d, *reinterpret_cast<Value*>(r)); bloc_free_value(r); out += ",\"ret\":" + jstr(d); }
       out += "}";
